@@ -35,17 +35,23 @@ REQUIRED_REACH = [
     "stripe._BaseCubeCounts:_CatCubeCounts", "stripe._BaseCubeCounts:_MrCubeCounts",
     "stripe._BaseCubeCounts:_NumArrCubeCounts",
     "class:table=MR", "class:table=CAT", "class:table=ARR",
-    "class:near_logical_cat", "class:near_logical_array",
+    "class:near_logical_cat", "class:near_logical_array", "filtercols",
+    "class:augmented_missing_not_last",
 ]
 BATCH = 60
 
 
 def units(tier, seed):
     n = 900 if tier == "quick" else 60000
-    return [{"i": i, "seed": seed} for i in range(n)]
+    # multi-table with single-column filter cubes re-aligned by the library (vlib/filtercols.py)
+    fc = [{"fc": k, "seed": seed} for k in range(80 if tier == "quick" else 3000)]
+    return [{"i": i, "seed": seed} for i in range(n)] + fc
 
 
 def make_case(unit):
+    if "fc" in unit:
+        from .. import filtercols
+        return filtercols.make_case(gen.G("C01/fc/%s/%s" % (unit["seed"], unit["fc"])), "C01")
     i = unit["i"]
     g = gen.G("C01/%s/%s" % (unit["seed"], i))
     template = TEMPLATES[i % len(TEMPLATES)]
@@ -92,6 +98,9 @@ def _labels_expected(o, d):
 
 
 def check_case(case):
+    if case.get("mode") == "filtercols":
+        from .. import filtercols
+        return filtercols.check(case, ID)
     res = CaseResult()
     L = cases.realize(case)
     o, spec, cube = L.oracle, L.spec, L.cube
